@@ -1269,7 +1269,12 @@ class Engine:
         for ph in blk.phis:
             t = ph.ty.resolve()
             if t.k in ("float", "double") and self.fmode != "fp":
-                v = SV(self.fresh("loop_" + ph.dest, z3.RealSort()))
+                pre = st.user.get("havoc_preset", {}).get(len(hv))
+                if pre is not None:
+                    v = pre if isinstance(pre, SV) else SV(self.fterm(pre))
+                    st.trace.append("loop-carried %%%s stated equal to a harness value" % ph.dest)
+                else:
+                    v = SV(self.fresh("loop_" + ph.dest, z3.RealSort()))
                 hv.append(v)
             else:
                 raise Inconclusive("loop summary: non-float loop-carried value %%%s" % ph.dest)
